@@ -24,17 +24,20 @@ EnvOf(job, e) == [a \in 1..Len(job.argsh) |->
                     ArgArr(job.argsh[a], e.args[a], IF e.seed[1] = a THEN e.seed[2] ELSE 0)]
 Val(job, e) == Ev(job.N, e.node, EnvOf(job, e), e.lenv)
 
-AnyBad(a) == \E k \in 1..Len(a.v) : DIsBad(a.v[k])
-ValuesOf(a) == [k \in 1..Len(a.v) |-> a.v[k][1]]
+\* element kind of a node: complex nodes (dt = "c") hold pairs of dual numbers
+IsCx(job, node) == job.N[node].dt = "c"
+AnyBadK(a, c) == \E k \in 1..Len(a.v) : IF c THEN ZIsBad(a.v[k]) ELSE DIsBad(a.v[k])
+ValuesOfK(a, c) == [k \in 1..Len(a.v) |-> IF c THEN <<a.v[k][1][1], a.v[k][2][1]>> ELSE a.v[k][1]]
 \* verdict for a pair of nodes over all evaluation environments of the job
 PairVerdict(job, pr) ==
     LET res == [i \in 1..Len(job.evals) |->
                   LET e == job.evals[i]
                       va == Ev(job.N, pr.a, EnvOf(job, e), e.lenv)
                       vb == Ev(job.N, pr.b, EnvOf(job, e), e.lenv)
-                  IN IF va.sh # vb.sh THEN "shape"
-                     ELSE IF AnyBad(va) \/ AnyBad(vb) THEN "undef"
-                     ELSE IF ValuesOf(va) = ValuesOf(vb) THEN "same" ELSE "differ"]
+                      ca == IsCx(job, pr.a)
+                  IN IF va.sh # vb.sh \/ ca # IsCx(job, pr.b) THEN "shape"
+                     ELSE IF AnyBadK(va, ca) \/ AnyBadK(vb, ca) THEN "undef"
+                     ELSE IF ValuesOfK(va, ca) = ValuesOfK(vb, ca) THEN "same" ELSE "differ"]
     IN IF \E i \in 1..Len(res) : res[i] = "shape" THEN "shape"
        ELSE IF \E i \in 1..Len(res) : res[i] = "differ" THEN "differ"
        ELSE IF \A i \in 1..Len(res) : res[i] = "undef" THEN "undef" ELSE "same"
@@ -42,7 +45,8 @@ PairVerdict(job, pr) ==
 Emit(x) == PrintT(<<"VF", ToJson(x)>>)
 Work == LET job == Jobs[jid] IN
         Emit([id |-> job.id,
-              vals |-> [i \in 1..Len(job.evals) |-> Proj(Val(job, job.evals[i]))],
+              vals |-> [i \in 1..Len(job.evals) |-> IF IsCx(job, job.evals[i].node) THEN ProjCx(Val(job, job.evals[i]))
+                                                     ELSE Proj(Val(job, job.evals[i]))],
               verdicts |-> [i \in 1..Len(job.pairs) |-> PairVerdict(job, job.pairs[i])]])
 
 Init == jid \in 1..NJ
